@@ -13,9 +13,9 @@ Verdict(v) ==
   ELSE LET b == FBody(v.frame) IN
        IF Len(b) # 24 \/ b[1] # 64 THEN "not a 24-byte 0x40 body"
        ELSE IF ~Vendor40Shape(b) THEN "vendor shape (client mode / swing marker / turbo pair)"
-       ELSE IF VendorDecode40(b) # v.req THEN "vendor decode differs from requested state"
+       ELSE IF VendorDecode40(b) # Requested(v.req) THEN "vendor decode differs from requested state"
        ELSE IF ~VendorNeutral(b) THEN "unrequested vendor feature bits set"
-       ELSE IF v.devstate # v.req THEN "harness: simulated device decoded a different state"
+       ELSE IF v.devstate # Requested(v.req) THEN "harness: simulated device decoded a different state"
        ELSE "ok"
 Judge == LET r == Verdict(Vectors[i]) IN IF r = "ok" THEN TRUE ELSE PrintT(<<"REJECT", i, r>>)
 (* informational: byte-exact agreement with the library-shaped packing *)
